@@ -57,9 +57,6 @@ func (e *Engine) encodeFunction(name string) (fe *FuncEnc, err error) {
 	f := fe.newFrame(fn, nil, "")
 	fe.cur = f
 	st := &State{heap: map[string]Term{}}
-	if e.rules != nil {
-		fe.initMonitor(f)
-	}
 	for _, p := range fn.Params {
 		s := e.sorts.sortOf(p.Type())
 		t := fe.fresh("p_"+p.Name(), s)
@@ -67,8 +64,18 @@ func (e *Engine) encodeFunction(name string) (fe *FuncEnc, err error) {
 		f.params[p.Name()] = t
 		f.ptypes[p.Name()] = p.Type()
 		fe.assume(tBool(true), fe.wf(t, p.Type(), st))
+		if _, isIface := p.Type().Underlying().(*types.Interface); isIface {
+			// a node passed in exists already: its pointer is allocated in its type's space
+			for _, dt := range e.dynTypes {
+				if n, _, ok := fe.structOfPointer(dt); ok && n.Obj().Pkg().Name() != "interpreter" {
+					a := fe.comp(st, "A_H_"+sanitize(e.sorts.shortTypeName(n)), arrSort(SInt, SBool))
+					fe.assume(tBool(true), Term{fmt.Sprintf("(=> (and ((_ is VPtr) %s) (= (vptag %s) %d) (> (vpref %s) 0)) (select %s (vpref %s)))", t.S, t.S, e.sorts.tagOf(dt), t.S, a.S, t.S), SBool})
+				}
+			}
+		}
 		fe.inputs = append(fe.inputs, ModelInput{Name: p.Name(), Sym: t.S, Sort: s, Type: types.TypeString(p.Type(), nil)})
 	}
+	fe.initMonitor(f, st)
 	// nothing runs after the process has exited
 	if e.modsetOf(fn)["G_io_Exited"] {
 		fe.assume(tBool(true), tNot(fe.comp(st, "G_io_Exited", SBool)))
@@ -116,6 +123,10 @@ func (e *Engine) encodeFunction(name string) (fe *FuncEnc, err error) {
 		}
 		f.entry = st.clone()
 	}
+	if fe.con != nil && len(fe.con.Requires) > 0 {
+		fe.obls = append(fe.obls, &Obl{Name: name + "/cover:entry", Func: name, Kind: "cover", Label: "entry", Pos: len(fe.items), Goal: tBool(true),
+			Clause: "vacuity guard: the preconditions are satisfiable", SrcPos: e.relPos(fn.Pos()), fe: fe, ExpectSat: true})
+	}
 	fe.execFrame(f, st, tBool(true))
 	f.curBlock = nil
 	// exit
@@ -134,6 +145,10 @@ func (e *Engine) encodeFunction(name string) (fe *FuncEnc, err error) {
 			res = append(res, fe.define("result", iteChain(ins, ts)))
 		}
 		for _, en := range fe.con.Ensures {
+			if en.CaseType != nil {
+				fe.caseClause(f, en)
+				continue
+			}
 			t := fe.evalClause(f, en, xst, f.entry, nil, res, fn.Pos())
 			fe.emit("post", en.Label, reach, t, en.Text, fn.Pos())
 			if len(en.Props) > 0 {
@@ -146,7 +161,7 @@ func (e *Engine) encodeFunction(name string) (fe *FuncEnc, err error) {
 		if o.Props == nil {
 			o.Props = append([]string{}, fe.props...)
 		}
-		if strings.HasPrefix(o.Kind, "safety.") && !contains(o.Props, "C07") {
+		if (strings.HasPrefix(o.Kind, "safety.") || o.Kind == "cover") && !contains(o.Props, "C07") {
 			o.Props = append(o.Props, "C07")
 		}
 	}
@@ -178,6 +193,7 @@ func setup(repo string) (*Engine, error) {
 	e.collectDynTypes()
 	e.scanCtorOnly()
 	e.registerAllComps()
+	e.registerLogComps()
 	for _, t := range e.dynTypes {
 		e.sorts.tagOf(t)
 	}
@@ -232,6 +248,9 @@ func main() {
 					}
 				}
 			}
+		}
+		for _, k := range sortedKeys(e.compOwner) {
+			fmt.Printf("comp %-50s owner=%s ctorOnly=%v\n", k, e.compOwner[k], !e.notCtorOnly[k])
 		}
 		for _, k := range sortedKeys(ext) {
 			_, ok := stubs[k]
@@ -418,11 +437,10 @@ func runCheck(repo, mode string, args []string) int {
 	jobs = nil
 	for _, o := range selected {
 		o := o
-		want := "unsat"
 		if o.ExpectSat {
-			want = "sat"
+			continue // vacuity guards are decided by the batch pass only (anything but `unsat` is fine)
 		}
-		if o.Status == want {
+		if o.Status == "unsat" {
 			continue
 		}
 		jobs = append(jobs, func() { e.solveOne(o, header, dir, quickT, raceT) })
@@ -432,6 +450,9 @@ func runCheck(repo, mode string, args []string) int {
 	for _, o := range selected {
 		if fast {
 			break
+		}
+		if o.ExpectSat {
+			continue
 		}
 		if o.Status == "timeout" || o.Status == "" || o.Status == "error" {
 			e.solveOne(o, header, dir, quickT*2, raceT*3)
@@ -495,7 +516,8 @@ func (e *Engine) report(prop, tier string, obls []*Obl, encs []*FuncEnc, engineE
 		return nil
 	}
 	sort.Slice(obls, func(i, j int) bool { return obls[i].Name < obls[j].Name })
-	discharged, failed, knownN := 0, 0, 0
+	discharged, failed, knownN, covers := 0, 0, 0, 0
+	var deadPaths []string
 	byBackend := map[string]int{}
 	solverTime := 0.0
 	var samples []map[string]interface{}
@@ -508,7 +530,27 @@ func (e *Engine) report(prop, tier string, obls []*Obl, encs []*FuncEnc, engineE
 	for _, o := range obls {
 		funcsUnder[o.Func] = true
 		solverTime += o.Time
-		ok := o.Status == "unsat" && !o.ExpectSat || o.Status == "sat" && o.ExpectSat
+		if o.ExpectSat {
+			covers++
+			if o.Status == "unsat" {
+				switch {
+				case strings.HasPrefix(o.Label, "after "):
+					// contradiction introduced by a callee contract: the call was reachable, its continuation is not
+					before := "before " + strings.TrimPrefix(o.Label, "after ")
+					for _, b := range obls {
+						if b.Func == o.Func && b.Kind == "cover" && b.Label == before && b.Status != "unsat" {
+							engineErrs = append(engineErrs, fmt.Sprintf("%s: vacuous — the assumed contract of the callee contradicts the caller's state", o.Name))
+						}
+					}
+				case o.Label == "entry":
+					engineErrs = append(engineErrs, fmt.Sprintf("%s: vacuous — contradictory preconditions", o.Name))
+				default:
+					deadPaths = append(deadPaths, o.Name)
+				}
+			}
+			continue
+		}
+		ok := o.Status == "unsat"
 		if ok {
 			discharged++
 			byBackend[strings.TrimSuffix(o.Solver, "(batch)")]++
@@ -560,8 +602,8 @@ func (e *Engine) report(prop, tier string, obls []*Obl, encs []*FuncEnc, engineE
 	for _, m := range engineErrs {
 		fmt.Printf("ENGINE-ERROR %s\n", m)
 	}
-	fmt.Printf("summary property=%s tier=%s obligations=%d discharged=%d known=%d failed=%d engine_errors=%d wall=%.1fs solver=%.1fs\n",
-		prop, tier, len(obls), discharged, knownN, failed, len(engineErrs), wall.Seconds(), solverTime)
+	fmt.Printf("summary property=%s tier=%s obligations=%d discharged=%d known=%d failed=%d covers=%d engine_errors=%d wall=%.1fs solver=%.1fs\n",
+		prop, tier, len(obls)-covers, discharged, knownN, failed, covers, len(engineErrs), wall.Seconds(), solverTime)
 	if prop != "" {
 		var under []string
 		for f := range funcsUnder {
@@ -576,7 +618,7 @@ func (e *Engine) report(prop, tier string, obls []*Obl, encs []*FuncEnc, engineE
 		ev := map[string]interface{}{
 			"property_id": prop, "tier": tier, "seed": seedFromEnv(), "level": "proof", "wall_s": round3(wall.Seconds()), "violations": violations,
 			"coverage": map[string]interface{}{
-				"obligations": len(obls) - knownN, "discharged": discharged, "checker_cmd": "./check " + prop + " " + tier,
+				"obligations": len(obls) - knownN - covers, "discharged": discharged, "vacuity_guards_checked": covers, "unreachable_paths": deadPaths, "checker_cmd": "./check " + prop + " " + tier,
 				"trusted_base": tb, "functions_under_contract": under, "functions_touched": len(funcsUnder),
 				"inlined": sortStrings(inlined), "bounded": []string{}, "by_backend": byBackend, "solver_time_s": round3(solverTime),
 				"known_findings": knownList, "failed": failed, "engine_errors": engineErrs, "samples": samples,
@@ -594,7 +636,7 @@ func (e *Engine) report(prop, tier string, obls []*Obl, encs []*FuncEnc, engineE
 	if failed > 0 {
 		return 1
 	}
-	if prop != "" && len(obls)-knownN == 0 {
+	if prop != "" && len(obls)-knownN-covers == 0 {
 		fmt.Println("ENGINE-ERROR no obligations generated for this property (vacuous check)")
 		return 3
 	}
@@ -662,4 +704,79 @@ func (e *Engine) ifaceContractFor(fn *ssa.Function) (*Contract, *types.Signature
 		return con, msig
 	}
 	return nil, nil
+}
+
+// caseClause checks an `ensures case T: body` clause: body on the returns inside the type-switch case T, and the
+// disjointness of every other return from that case.
+func (fe *FuncEnc) caseClause(f *Frame, en *Clause) {
+	fn := f.fn
+	ctx := &specCtx{fe: fe, f: f}
+	T := ctx.resolveType(en.CaseType)
+	var caseBlock *ssa.BasicBlock
+	var subject ssa.Value
+	for _, b := range fn.Blocks {
+		if len(b.Preds) != 1 {
+			continue
+		}
+		p := b.Preds[0]
+		if len(p.Instrs) == 0 || p.Succs[0] != b {
+			continue
+		}
+		iff, ok := p.Instrs[len(p.Instrs)-1].(*ssa.If)
+		if !ok {
+			continue
+		}
+		ex, ok := iff.Cond.(*ssa.Extract)
+		if !ok || ex.Index != 1 {
+			continue
+		}
+		ta, ok := ex.Tuple.(*ssa.TypeAssert)
+		if !ok || !ta.CommaOk || !types.Identical(ta.AssertedType, T) {
+			continue
+		}
+		caseBlock = b
+		subject = ta.X
+	}
+	if caseBlock == nil {
+		engErr("%s: no type-switch case for %s", en.Line, T)
+	}
+	var in, out []inEdge
+	var inRets []retInfo
+	for _, r := range f.rets {
+		if caseBlock == r.block || caseBlock.Dominates(r.block) {
+			in = append(in, inEdge{cond: r.reach, st: r.st})
+			inRets = append(inRets, r)
+		} else {
+			out = append(out, inEdge{cond: r.reach, st: r.st})
+		}
+	}
+	if len(in) == 0 {
+		engErr("%s: case %s has no return", en.Line, T)
+	}
+	reach, xst := fe.merge(in, "case_"+sanitize(en.Label))
+	var res []Term
+	for i := 0; i < fn.Signature.Results().Len(); i++ {
+		var ts []Term
+		for _, r := range inRets {
+			ts = append(ts, r.res[i])
+		}
+		res = append(res, fe.define("result", iteChain(in, ts)))
+	}
+	f.curBlock = nil
+	t := fe.evalClause(f, en, xst, f.entry, nil, res, fn.Pos())
+	fe.emit("post", en.Label, reach, t, en.Text, fn.Pos())
+	if len(en.Props) > 0 {
+		fe.obls[len(fe.obls)-1].Props = en.Props
+	}
+	// every other return is outside the case
+	var conds []Term
+	for _, e := range out {
+		conds = append(conds, e.cond)
+	}
+	if len(conds) > 0 {
+		fe.emit("post", en.Label+".elsewhere", tOr(conds...), tNot(fe.typeTest(fe.val(subject), T)), "returns outside the case are not "+types.TypeString(T, nil), fn.Pos())
+		if len(en.Props) > 0 {
+			fe.obls[len(fe.obls)-1].Props = en.Props
+		}
+	}
 }
